@@ -262,7 +262,11 @@ func (e *Env) TLC(r TLCRun) (*TLCResult, error) {
 			} else if m := reInv.FindStringSubmatch(ls); m != nil {
 				res.Violations = append(res.Violations, m[1])
 			} else if m := reErr.FindStringSubmatch(ls); m != nil {
-				res.Errors = append(res.Errors, m[1])
+				// the trace header that follows a violated invariant/property is not an error of its own
+				if !strings.HasPrefix(m[1], "The behavior up to this point is") &&
+					!strings.HasPrefix(m[1], "The following behavior constitutes a counter-example") {
+					res.Errors = append(res.Errors, m[1])
+				}
 			} else if m := reCov.FindStringSubmatch(ls); m != nil {
 				n, _ := strconv.ParseInt(m[3], 10, 64)
 				res.ActionCov[m[1]] += n
